@@ -279,6 +279,27 @@ func VerifC05_PgProxyDropsDenied() {
 	verif.Reach("reused-name-handled")
 	verif.Assert(err == nil && censored, "denied-text-under-a-reused-name-is-censored")
 	verif.Assert(len(fwd) == 0, "denied-text-under-a-reused-name-not-written-to-the-database")
+	// ... and the rejected text does not take the accepted statement's place: a Bind to that name is still processed
+	// as the statement the database has (its protected parameter is encrypted)
+	if _, censored, err := v.fromClient(verifParse("ins", "insert into t (id, secret, plain) values ($1, $2, $3)")); err != nil || censored {
+		verif.Assert(false, "insert-parse-passes")
+		return
+	}
+	_, censored, err = v.fromClient(verifParse("ins", "select a from forbidden where b = $1"))
+	verif.Assert(err == nil && censored, "denied-text-under-the-insert-name-is-censored")
+	value := verifPgMarker("value", 3)
+	bfwd, censored, err := v.fromClient(verifBind("ins", nil, [][]byte{[]byte("1"), value, []byte("keep")}, nil))
+	verif.Reach("bind-after-rejected-parse")
+	verif.Assert(err == nil && !censored, "bind-forwarded")
+	if err != nil || censored {
+		return
+	}
+	_, params, ok := verifBindParams(bfwd)
+	verif.Assert(ok && len(params) == 3, "forwarded-bind-well-formed")
+	if ok && len(params) == 3 {
+		verif.Assert(len(params[1]) > len(value) && !verif.Contains(params[1][:3], value), "bind-processed-as-the-accepted-statement")
+		verif.Assert(verif.Eq(params[2], []byte("keep")), "uncovered-parameter-unchanged")
+	}
 }
 
 // VerifC12_PgProxyRelaySequence: messages the proxy has no reason to change, sent one after another in either
